@@ -366,6 +366,26 @@ def shard_dispatch(ctx: Ctx) -> None:
             want = cm.legacy_sighash(redeem if kind == "p2sh" else spk, mtx, idx, ht)
             pins = [PsbtIn(witness_utxo=lspent[k], check_validity=False) if k != idx else
                     PsbtIn(non_witness_utxo=prev_tx, redeem_script=redeem, check_validity=False) for k in range(n_in)]
+        # the input's own PSBT_IN_SIGHASH_TYPE: absent, the type asked for, or another one. An explicit hash_type
+        # argument is the one the digest is for; an omitted one means the field's (ALL / DEFAULT when absent)
+        defined = [0, 1, 2, 3, 0x81, 0x82, 0x83] if taproot else [1, 2, 3, 0x81, 0x82, 0x83]
+        fld = r.choice([None, None, ht if ht in defined else None, r.choice(defined), r.choice(defined)])
+        if fld is not None:
+            pins[idx].sig_hash_type = fld
+        ctx.stat("psbt-field:absent" if fld is None else "psbt-field:same-as-asked" if fld == ht else "psbt-field:other-than-asked")
+
+        def model(h, mtx=mtx, mspent=mspent):
+            if taproot:
+                return cm.taproot_sighash(mtx, idx, mspent, h, cm.TAPSCRIPT if kind == "p2tr-script" else cm.TAPROOT,
+                                          cm.ExecData(annex=None, tapleaf_hash=leaf, codesep_pos=0xFFFFFFFF))
+            if kind in ("p2wpkh", "p2sh-p2wpkh"):
+                return cm.segwit_sighash(b"\x76\xa9\x14" + h20 + b"\x88\xac", mtx, idx, h, amount)
+            if kind in ("p2wsh", "p2sh-p2wsh"):
+                return cm.segwit_sighash(inner, mtx, idx, h, amount)
+            return cm.legacy_sighash(redeem if kind == "p2sh" else spk, mtx, idx, h)
+
+        omitted = (fld or 0) if taproot else (1 if fld is None else fld)
+        want_omitted = model(omitted)
         # Psbt.from_tx blanks script_sig/witness of the tx it is given: hand it a copy
         _, ltx_copy, _, _ = w.build(mtx.version, mtx.lock_time, [(i.prev_hash[::-1], i.prev_n, i.sequence) for i in mtx.vin], outs, spent)
         po = outcome(Psbt.from_tx, ltx_copy, pins, None, check_validity=False)
@@ -374,6 +394,7 @@ def shard_dispatch(ctx: Ctx) -> None:
             continue
         psbt = po[1]
         case["psbt"] = True
+        case["psbt_in_sig_hash_type"] = fld
         vo = outcome(psbt.assert_valid)
         if vo[0] == "raise":   # the PSBT itself is refused (e.g. outputs above 21M coins): no digest is owed
             if not is_lib_exc(vo[1]):
@@ -385,10 +406,12 @@ def shard_dispatch(ctx: Ctx) -> None:
             if kind == "p2tr-script" and (wit[2][0] & 0xFE) != 0xC0:
                 continue
             _judge(ctx, "psbt.taproot_sig_hash", outcome(taproot_sig_hash, psbt, idx, leaf_hash=leaf, hash_type=ht), want, case)
-            ctx.case("psbt:taproot", ("PT", mtx.ser(), idx, ht, leaf))
+            _judge(ctx, "psbt.taproot_sig_hash:type-omitted", outcome(taproot_sig_hash, psbt, idx, leaf_hash=leaf), want_omitted, case)
+            ctx.case("psbt:taproot", ("PT", mtx.ser(), idx, ht, leaf, fld))
         else:
             _judge(ctx, "psbt.ecdsa_sig_hash", outcome(ecdsa_sig_hash, psbt, idx, hash_type=ht), want, case)
-            ctx.case("psbt:ecdsa", ("PE", mtx.ser(), idx, ht))
+            _judge(ctx, "psbt.ecdsa_sig_hash:type-omitted", outcome(ecdsa_sig_hash, psbt, idx), want_omitted, case)
+            ctx.case("psbt:ecdsa", ("PE", mtx.ser(), idx, ht, fld))
         so = outcome(psbt.serialize, check_validity=False)
         if so[0] == "raise":
             ctx.stat("psbt:not-serializable")
@@ -401,9 +424,11 @@ def shard_dispatch(ctx: Ctx) -> None:
             continue
         if taproot:
             _judge(ctx, "PsbtView.taproot_sig_hash", outcome(vo[1].taproot_sig_hash, idx, leaf_hash=leaf, hash_type=ht), want, case)
-            ctx.case("psbtview:taproot", ("VT", mtx.ser(), idx, ht, leaf))
+            _judge(ctx, "PsbtView.taproot_sig_hash:type-omitted", outcome(vo[1].taproot_sig_hash, idx, leaf_hash=leaf), want_omitted, case)
+            ctx.case("psbtview:taproot", ("VT", mtx.ser(), idx, ht, leaf, fld))
         else:
             _judge(ctx, "PsbtView.ecdsa_sig_hash", outcome(vo[1].ecdsa_sig_hash, idx, hash_type=ht), want, case)
-            ctx.case("psbtview:ecdsa", ("VE", mtx.ser(), idx, ht))
+            _judge(ctx, "PsbtView.ecdsa_sig_hash:type-omitted", outcome(vo[1].ecdsa_sig_hash, idx), want_omitted, case)
+            ctx.case("psbtview:ecdsa", ("VE", mtx.ser(), idx, ht, fld))
     reach.stop()
     reach.report(ctx)
